@@ -1,13 +1,13 @@
 SPECIFICATION Spec
 CONSTANTS
-  VarIds = {1, 2, 3}
-  CoT <- SetC
-  CoR <- SetC
+  VarIds = {1, 2, 3, 4}
+  CoT <- SetT3
+  CoR <- SetR3
   ConstT = {3}
   ConstR = {2}
-  MaxCtx = 2
-  KeptOnly <- NoVars
-  ElimLists <- Lists1
+  MaxCtx = 3
+  KeptOnly <- Var4
+  ElimLists <- Lists3
   SignAny = FALSE
   NoAccumulation = FALSE
 INVARIANT Sound
